@@ -110,7 +110,7 @@ pub struct Report {
     pub crosschecked: u64,
     pub crosscheck_disagreements: u64,
     pub wall_s: f64,
-    pub path_sigs: u64,
+    pub paths_with_checks: u64,
 }
 
 impl Report {
@@ -141,12 +141,13 @@ impl Report {
         self.inconclusive += o.inconclusive;
         self.crosschecked += o.crosschecked;
         self.crosscheck_disagreements += o.crosscheck_disagreements;
-        self.path_sigs += o.path_sigs;
+        self.paths_with_checks += o.paths_with_checks;
     }
     pub fn to_json(&self) -> serde_json::Value {
         serde_json::json!({
             "harness": self.harness,
             "paths": self.paths,
+            "paths_with_checks": self.paths_with_checks,
             "pruned": self.pruned,
             "solver_queries": self.solver_queries,
             "solver_time_s": (self.solver_time_s*1000.0).round()/1000.0,
@@ -197,6 +198,7 @@ pub struct Ctx {
     mode: Mode,
     auto: HashMap<String, u32>,
     notes: Vec<String>,
+    checks_this_path: u64,
     rep: Report,
     max_violations: usize,
     crosscheck_every: u64,
@@ -237,6 +239,7 @@ impl Ctx {
             mode: Mode::Explore,
             auto: HashMap::new(),
             notes: vec![],
+            checks_this_path: 0,
             rep: Report::default(),
             max_violations: 8,
             crosscheck_every: 0,
@@ -800,6 +803,7 @@ pub fn prune() -> ! {
 pub fn check(name: &str, cond: T) -> bool {
     with(|c| {
         *c.rep.checks_by_name.entry(name.to_string()).or_default() += 1;
+        c.checks_this_path += 1;
         if let Node::BConst(b) = c.arena[cond as usize] {
             if b {
                 c.rep.checks_discharged += 1;
@@ -986,6 +990,7 @@ fn explore_thread(
             c.pc.clear();
             c.auto.clear();
             c.notes.clear();
+            c.checks_this_path = 0;
             c.pos = 0;
             c.model_valid = first && c.forced == 0;
             if c.model_valid {
@@ -1005,6 +1010,9 @@ fn explore_thread(
             match r {
                 Ok(()) => {
                     c.rep.paths += 1;
+                    if c.checks_this_path > 0 {
+                        c.rep.paths_with_checks += 1;
+                    }
                     if c.rep.samples.len() < 3 && !c.notes.is_empty() {
                         if !c.model_valid {
                             c.refresh_model();
